@@ -72,6 +72,8 @@ impl ServerHandle {
     #[doc(alias("stop"))]
     pub async fn shutdown(self, mode: ShutdownMode) {
         let (completion_notifier, completion) = tokio::sync::oneshot::channel();
+        #[cfg(pavex_verif)]
+        super::verif_trace::record("call", super::verif_trace::mode_code(&mode), 0);
         if self
             .command_outbox
             .send(ServerCommand::Shutdown {
@@ -81,6 +83,8 @@ impl ServerHandle {
             .await
             .is_ok()
         {
+            #[cfg(pavex_verif)]
+            super::verif_trace::record("cmd_sent", 0, 0);
             // What if sending fails?
             // It only happens if the other end of the channel has already been dropped, which
             // implies that the acceptor thread has already shut down—nothing to do!
@@ -248,6 +252,8 @@ where
                             worker_handles,
                         )
                         .await;
+                        #[cfg(pavex_verif)]
+                        super::verif_trace::record("acc_exit", 0, 0);
                         return;
                     }
                 },
@@ -289,8 +295,19 @@ where
                         // Track if the worker has crashed.
                         let mut has_crashed: Option<usize> = None;
                         let worker_handle = &worker_handles[next_worker];
+                        #[cfg(pavex_verif)]
+                        let mut verif_log = super::verif_trace::lock();
                         match worker_handle.dispatch(connection_message) {
                             Err(e) => {
+                                #[cfg(pavex_verif)]
+                                {
+                                    let kind = match &e {
+                                        TrySendError::Full(_) => "dispatch_full",
+                                        TrySendError::Closed(_) => "dispatch_closed",
+                                    };
+                                    verif_log.push(kind, remote_peer.port() as u64, next_worker as u64);
+                                    drop(verif_log);
+                                }
                                 connection_message = match e {
                                     TrySendError::Full(message) => message,
                                     // A closed channel implies that the worker thread is no longer running,
@@ -303,6 +320,11 @@ where
                                 next_worker = (next_worker + 1) % n_workers;
                             }
                             _ => {
+                                #[cfg(pavex_verif)]
+                                {
+                                    verif_log.push("dispatch_ok", remote_peer.port() as u64, next_worker as u64);
+                                    drop(verif_log);
+                                }
                                 // We've successfully sent the connection to a worker, so we can stop trying
                                 // to send it to other workers.
                                 has_been_handled = true;
@@ -326,6 +348,8 @@ where
                     }
 
                     if !has_been_handled {
+                        #[cfg(pavex_verif)]
+                        super::verif_trace::record("drop_conn", remote_peer.port() as u64, 0);
                         tracing::error!(
                             remote_peer = %remote_peer,
                             "All workers are busy, dropping connection",
@@ -347,11 +371,22 @@ where
         server_command_inbox: &mut tokio::sync::mpsc::Receiver<ServerCommand>,
         incoming_join_set: &mut JoinSet<(IncomingStream, TcpStream, SocketAddr)>,
     ) -> Poll<AcceptorInboxMessage> {
+        #[cfg(pavex_verif)]
+        let mut verif_log = super::verif_trace::lock();
         // Order matters here: we want to prioritize shutdown messages over incoming connections.
         if let Poll::Ready(Some(message)) = server_command_inbox.poll_recv(cx) {
+            #[cfg(pavex_verif)]
+            {
+                let ServerCommand::Shutdown { mode, .. } = &message;
+                verif_log.push("acc_shutdown", super::verif_trace::mode_code(mode), 0);
+            }
             return Poll::Ready(AcceptorInboxMessage::ServerCommand(message));
         }
         if let Poll::Ready(message) = incoming_join_set.poll_join_next(cx) {
+            #[cfg(pavex_verif)]
+            if let Some(Ok((_, _, peer))) = &message {
+                verif_log.push("accept", peer.port() as u64, 0);
+            }
             return Poll::Ready(AcceptorInboxMessage::Connection(message));
         }
         Poll::Pending
@@ -387,7 +422,16 @@ where
             let mode2 = mode.clone();
             // The shutdown command is enqueued immediately, before the future is polled for the
             // first time.
+            #[cfg(pavex_verif)]
+            let mut verif_log = super::verif_trace::lock();
+            #[cfg(pavex_verif)]
+            let verif_worker_id = worker_handle.id() as u64;
             let future = worker_handle.shutdown(mode2);
+            #[cfg(pavex_verif)]
+            {
+                verif_log.push("acc_send", verif_worker_id, 0);
+                drop(verif_log);
+            }
             if mode.is_graceful() {
                 shutdown_join_set.spawn_local(future);
             }
@@ -396,13 +440,26 @@ where
         if let ShutdownMode::Graceful { timeout } = mode {
             // Wait for all workers to shut down, or for the timeout to expire,
             // whichever happens first.
+            #[cfg(pavex_verif)]
+            super::verif_trace::record("acc_wait_start", 0, 0);
             let _ = tokio::time::timeout(timeout, async move {
                 while shutdown_join_set.join_next().await.is_some() {}
+                #[cfg(pavex_verif)]
+                super::verif_trace::record("acc_wait_all", 0, 0);
             })
             .await;
+            #[cfg(pavex_verif)]
+            super::verif_trace::record("acc_wait_end", 0, 0);
         }
 
         // Notify the caller that the server has shut down.
+        #[cfg(pavex_verif)]
+        let mut verif_log = super::verif_trace::lock();
         let _ = completion_notifier.send(());
+        #[cfg(pavex_verif)]
+        {
+            verif_log.push("acc_notify", 0, 0);
+            drop(verif_log);
+        }
     }
 }
